@@ -5,6 +5,7 @@
 -/
 import Irc.HRest
 import Irc.Inv
+import Irc.InvCheck
 import Irc.Lemmas.Map
 import Irc.Lemmas.Frame
 import Irc.Props.C14
@@ -277,6 +278,12 @@ theorem rcptsOf_congr {w w' : World} (h : SameData w w') (nick source target : S
 def msgLine (source : Str) (notice : Bool) (target text : Str) : Str :=
   ':' :: (source ++ ' ' :: msgBody notice target text)
 
+theorem msgLine_eq (source : Str) (notice : Bool) (target text : Str) :
+    msgLine source notice target text =
+      str ":" ++ source ++ (if notice = true then str " NOTICE " else str " PRIVMSG ") ++ target ++
+        str " :" ++ text := by
+  cases notice <;> simp [msgLine, msgBody, str_colon, str_spNOTICE, str_spPRIVMSG]
+
 theorem privmsgTarget_sameData : SameData x.w (privmsgTarget cfg c nick notice text target x).1.w := by
   by_cases hc : (getPrivmsgTargetType target).1.channel = true
   · cases hl : Map.lookup (getPrivmsgTargetType target).2 x.w.channels with
@@ -346,6 +353,52 @@ theorem privmsgTarget_queued :
       · cases u.away <;> simp [Ctx.sendDisplay, send_queued, msgLine]
       · simp [Ctx.sendDisplay, send_queued, msgLine]
 
+/-- the lines `privmsgTarget` writes to the sender for a PRIVMSG -/
+def repliesOf (cfg : Cfg) (w : World) (client nick source target : Str) : List Str :=
+  if (getPrivmsgTargetType target).1.channel = true then
+    match Map.lookup (getPrivmsgTargetType target).2 w.channels with
+    | some ch =>
+      if canSend ch nick source = true then []
+      else [':' :: (cfg.name ++ ' ' :: ErrCannotSendToChain404 client (getPrivmsgTargetType target).2)]
+    | none => [':' :: (cfg.name ++ ' ' :: ErrNoSuchChannel403 client (getPrivmsgTargetType target).2)]
+  else
+    match Map.lookup target w.users with
+    | some u =>
+      (match u.away with
+       | some a => [':' :: (cfg.name ++ ' ' :: RplAway301 client target a)]
+       | none => [])
+    | none => [':' :: (cfg.name ++ ' ' :: ErrNoSuchNick401 client target)]
+
+theorem repliesOf_congr {w w' : World} (h : SameData w w') (cfg : Cfg) (client nick source target : Str) :
+    repliesOf cfg w' client nick source target = repliesOf cfg w client nick source target := by
+  unfold repliesOf; rw [h.channels, h.users]
+
+theorem privmsgTarget_privmsg_direct :
+    (privmsgTarget cfg c nick false text target x).1.direct =
+      x.direct ++ repliesOf cfg x.w (x.conn c).clientName nick (x.conn c).source target := by
+  unfold repliesOf
+  by_cases hc : (getPrivmsgTargetType target).1.channel = true
+  · cases hl : Map.lookup (getPrivmsgTargetType target).2 x.w.channels with
+    | none =>
+      rw [privmsgTarget_chan_missing cfg c nick false text target x hc hl]
+      simp [hc]
+    | some ch =>
+      by_cases hs : canSend ch nick (x.conn c).source = true
+      · rw [privmsgTarget_chan_ok cfg c nick false text target x hc hl hs]
+        simp only [hc, hs, if_true, List.append_nil]
+        exact foldl_send_direct _ _ _ _
+      · rw [privmsgTarget_chan_rejected cfg c nick false text target x hc hl (by simpa using hs)]
+        simp [hc, hs]
+  · have hc' : (getPrivmsgTargetType target).1.channel = false := by simpa using hc
+    cases hl : Map.lookup target x.w.users with
+    | none =>
+      rw [privmsgTarget_nick_missing cfg c nick false text target x hc' hl]
+      simp [hc']
+    | some u =>
+      rw [privmsgTarget_nick_ok cfg c nick false text target x hc' hl]
+      simp only [hc', Bool.false_eq_true, if_false]
+      cases u.away <;> simp
+
 end cases
 
 /-! ### the fold of `processPrivmsgNotice` -/
@@ -384,6 +437,23 @@ theorem pmFold_notice_direct (ts : List Str) (p : Ctx × Bool) :
     (ts.foldl (pmStep cfg c nick true text) p).1.direct = p.1.direct :=
   pmFold_inv cfg c nick true text (fun y => y.direct = p.1.direct)
     (fun t y hy => (privmsgTarget_notice_direct cfg c nick text t y).trans hy) ts p rfl
+
+theorem pmFold_privmsg_direct (ts : List Str) (p : Ctx × Bool) :
+    (ts.foldl (pmStep cfg c nick false text) p).1.direct =
+      p.1.direct ++ ts.flatMap (fun t =>
+        repliesOf cfg p.1.w (p.1.conn c).clientName nick (p.1.conn c).source t) := by
+  induction ts generalizing p with
+  | nil => simp
+  | cons t ts ih =>
+    simp only [List.foldl_cons, List.flatMap_cons]
+    rw [ih]
+    have hsd : SameData p.1.w (pmStep cfg c nick false text p t).1.w :=
+      privmsgTarget_sameData cfg c nick false text t p.1
+    have hq : (pmStep cfg c nick false text p t).1.direct = _ :=
+      privmsgTarget_privmsg_direct cfg c nick text t p.1
+    rw [hq, List.append_assoc]
+    congr 2
+    simp only [ctx_conn_congr hsd, repliesOf_congr hsd]
 
 theorem pmFold_queued (ts : List Str) (p : Ctx × Bool) :
     (ts.foldl (pmStep cfg c nick notice text) p).1.queued =
@@ -450,6 +520,109 @@ theorem chanRcpts_member (tt : TargetType) (C : Channel) (nick : Str) (h : RankM
     exact ⟨m, hm⟩
   · exact ((mem_plainRcpts C nick n).mp hn).1
 
+/-! ### the part of the invariant the PRIVMSG theorems need, and a sound checker for it -/
+
+/-- the three clauses of `InvCore` about channel membership used by C01 -/
+structure ChanInv (w : World) : Prop where
+  membersNodup : ∀ ch C, Map.lookup ch w.channels = some C → (Map.keys C.users).Nodup
+  memberIsUser : ∀ ch C n, Map.lookup ch w.channels = some C → Map.contains n C.users = true →
+    Map.contains n w.users = true
+  rankMirror : ∀ ch C, Map.lookup ch w.channels = some C → RankMirror C
+
+theorem ChanInv.of_invCore {w : World} (h : InvCore w) : ChanInv w :=
+  ⟨h.membersNodup, h.memberIsUser, h.rankMirror⟩
+
+theorem ChanInv.congr {w w' : World} (h : ChanInv w) (hu : w'.users = w.users)
+    (hc : w'.channels = w.channels) : ChanInv w' := by
+  refine ⟨?_, ?_, ?_⟩
+  · intro ch C; rw [hc]; exact h.membersNodup ch C
+  · intro ch C n; rw [hc, hu]; exact h.memberIsUser ch C n
+  · intro ch C; rw [hc]; exact h.rankMirror ch C
+
+theorem lookup_mem {α : Type} {k : Str} {m : Map α} {v : α} (h : Map.lookup k m = some v) :
+    (k, v) ∈ m := by
+  induction m with
+  | nil => simp [Map.lookup] at h
+  | cons p m ih =>
+    obtain ⟨k', v'⟩ := p
+    simp only [Map.lookup] at h
+    split at h
+    · rename_i hk; cases h; subst hk; exact List.mem_cons_self
+    · exact List.mem_cons_of_mem _ (ih h)
+
+theorem nodupStrs_sound (l : List Str) (h : nodupStrs l = true) : l.Nodup := by
+  induction l with
+  | nil => exact List.nodup_nil
+  | cons a l ih =>
+    simp only [nodupStrs, Bool.and_eq_true, Bool.not_eq_true', List.any_eq_false, beq_iff_eq] at h
+    exact List.nodup_cons.mpr ⟨fun ha => h.1 a ha rfl, ih h.2⟩
+
+theorem rank_chk_sound (C : Channel) (lst : KSet) (flag : ChanUserModes → Bool)
+    (h1 : lst.all (fun n => match Map.lookup n C.users with
+                            | some m => flag m | none => false) = true)
+    (h2 : C.users.all (fun p => !flag p.2 || KSet.mem p.1 lst) = true) (n : Str) :
+    KSet.mem n lst = true ↔ ∃ m, Map.lookup n C.users = some m ∧ flag m = true := by
+  rw [List.all_eq_true] at h1 h2
+  constructor
+  · intro hn
+    have := h1 n ((KSet.mem_iff _ _).mp hn)
+    cases hl : Map.lookup n C.users with
+    | none => simp [hl] at this
+    | some m => simp [hl] at this; exact ⟨m, rfl, this⟩
+  · rintro ⟨m, hm, hf⟩
+    have := h2 (n, m) (lookup_mem hm)
+    simpa [hf] using this
+
+theorem rankMirror_of_check (C : Channel) (h : rankMirrorCheck C = true) : RankMirror C := by
+  simp only [rankMirrorCheck, Bool.and_eq_true] at h
+  obtain ⟨⟨⟨⟨⟨a1, a2⟩, b1, b2⟩, c1, c2⟩, d1, d2⟩, e1, e2⟩ := h
+  exact ⟨rank_chk_sound C _ (·.founder) a1 a2, rank_chk_sound C _ (·.prot) b1 b2,
+    rank_chk_sound C _ (·.operator) c1 c2, rank_chk_sound C _ (·.halfOper) d1 d2,
+    rank_chk_sound C _ (·.voice) e1 e2⟩
+
+/-- executable version of `ChanInv` -/
+def chanInvCheck (w : World) : Bool :=
+  w.channels.all (fun q => nodupStrs (Map.keys q.2.users) &&
+    q.2.users.all (fun m => Map.contains m.1 w.users) && rankMirrorCheck q.2)
+
+theorem chanInv_of_check (w : World) (h : chanInvCheck w = true) : ChanInv w := by
+  simp only [chanInvCheck, List.all_eq_true, Bool.and_eq_true] at h
+  refine ⟨?_, ?_, ?_⟩
+  · intro ch C hl
+    exact nodupStrs_sound _ (h _ (lookup_mem hl)).1.1
+  · intro ch C n hl hn
+    obtain ⟨m, hm⟩ := (Map.contains_iff _ _).mp hn
+    exact (h _ (lookup_mem hl)).1.2 (n, m) (lookup_mem hm)
+  · intro ch C hl
+    exact rankMirror_of_check _ (h _ (lookup_mem hl)).2
+
+/-! ### distinct users are owned by distinct connections -/
+
+theorem inj_of_nodup_map {α β : Type} (f : α → β) :
+    ∀ (l : List α), (l.map f).Nodup → ∀ a b, a ∈ l → b ∈ l → f a = f b → a = b
+  | [], _, a, _, ha, _, _ => by simp at ha
+  | x :: l, h, a, b, ha, hb, hab => by
+    simp only [List.map_cons, List.nodup_cons, List.mem_map, not_exists, not_and] at h
+    rcases List.mem_cons.mp ha with rfl | ha' <;> rcases List.mem_cons.mp hb with rfl | hb'
+    · rfl
+    · exact absurd hab.symm (h.1 b hb')
+    · exact absurd hab (h.1 a ha')
+    · exact inj_of_nodup_map f l h.2 a b ha' hb' hab
+
+theorem owner_injective {w : World} (hnd : (w.conns.map (·.id)).Nodup)
+    (hown : ∀ n u, Map.lookup n w.users = some u →
+      ∃ cn, cn ∈ w.conns ∧ cn.id = u.owner ∧ cn.nick = some n)
+    {n n' : Str} {u u' : User}
+    (hu : Map.lookup n w.users = some u) (hu' : Map.lookup n' w.users = some u')
+    (ho : u.owner = u'.owner) : n = n' := by
+  obtain ⟨cn, hcn, hid, hnick⟩ := hown n u hu
+  obtain ⟨cn', hcn', hid', hnick'⟩ := hown n' u' hu'
+  have : cn = cn' := inj_of_nodup_map (·.id) w.conns hnd cn cn' hcn hcn'
+    (show cn.id = cn'.id by rw [hid, hid', ho])
+  subst this
+  rw [hnick] at hnick'
+  exact Option.some.inj hnick'
+
 /-! ### the whole command -/
 
 theorem mem_deliver {w : World} {line : Str} {ns : List Str} {e : Nat × Str}
@@ -461,6 +634,22 @@ theorem mem_deliver {w : World} {line : Str} {ns : List Str} {e : Nat × Str}
   cases hl : Map.lookup n w.users with
   | none => simp [hl] at he
   | some u => simp [hl] at he; exact ⟨n, u, hn, hl, he.symm⟩
+
+theorem deliver_eq_filter_map (w : World) (line : Str) (ns : List Str) (owner : Str → Nat)
+    (h : ∀ n u, Map.lookup n w.users = some u → u.owner = owner n) :
+    deliver w line ns =
+      (ns.filter (fun n => Map.contains n w.users)).map (fun n => (owner n, line)) := by
+  induction ns with
+  | nil => rfl
+  | cons n ns ih =>
+    rw [deliver_cons, ih, List.filter_cons]
+    cases hl : Map.lookup n w.users with
+    | none =>
+      have : Map.contains n w.users = false := (Map.contains_false_iff _ _).mpr hl
+      simp [this, deliver_single_none hl]
+    | some u =>
+      have : Map.contains n w.users = true := (Map.contains_iff _ _).mpr ⟨u, hl⟩
+      simp [this, deliver_single_some hl, h n u hl]
 
 section whole
 variable (cfg : Cfg) (c : Nat) (text : Str) (notice : Bool) (targets : List Str) (x : Ctx)
@@ -486,12 +675,22 @@ theorem ppn_queued {nick : Str} (hn : (x.conn c).nick = some nick) :
   · rw [Ctx.panic_queued]; exact pmFold_queued cfg c nick notice text _ (x, false)
   · exact pmFold_queued cfg c nick notice text _ (x, false)
 
+theorem ppn_privmsg_direct {nick : Str} (hn : (x.conn c).nick = some nick) :
+    (processPrivmsgNotice cfg c targets text false x).direct =
+      x.direct ++ (dedup targets).flatMap (fun t =>
+        repliesOf cfg x.w (x.conn c).clientName nick (x.conn c).source t) := by
+  rw [processPrivmsgNotice_eq]
+  simp only [hn]
+  split
+  · rw [Ctx.panic_direct]; exact pmFold_privmsg_direct cfg c nick text _ (x, false)
+  · exact pmFold_privmsg_direct cfg c nick text _ (x, false)
+
 theorem ppn_queued_none (hn : (x.conn c).nick = none) :
     (processPrivmsgNotice cfg c targets text notice x).queued = x.queued := by
   rw [processPrivmsgNotice_eq]
   simp only [hn]; rfl
 
-theorem privmsgTarget_w (nick target : Str) (hI : InvCore x.w) :
+theorem privmsgTarget_w (nick target : Str) (hI : ChanInv x.w) :
     (privmsgTarget cfg c nick notice text target x).1.w = x.w := by
   by_cases hc : (getPrivmsgTargetType target).1.channel = true
   · cases hl : Map.lookup (getPrivmsgTargetType target).2 x.w.channels with
@@ -519,7 +718,7 @@ theorem privmsgTarget_w (nick target : Str) (hI : InvCore x.w) :
       · cases u.away <;> simpa [Ctx.sendDisplay] using this
       · simpa [Ctx.sendDisplay] using this
 
-theorem ppn_w {nick : Str} (hI : InvCore x.w) (hn : (x.conn c).nick = some nick)
+theorem ppn_w {nick : Str} (hI : ChanInv x.w) (hn : (x.conn c).nick = some nick)
     (hu : Map.contains nick x.w.users = true) :
     (processPrivmsgNotice cfg c targets text notice x).w = x.w := by
   have hfold : ((dedup targets).foldl (pmStep cfg c nick notice text) (x, false)).1.w = x.w :=
@@ -541,9 +740,10 @@ with alice = operator and carol without rank. -/
 
 namespace Demo
 
-def mkUser (nick : Str) (owner : Nat) (away : Option Str) : User :=
+def mkUser (nick : Str) (owner : Nat) (away : Option Str) (chans : KSet := [str "#c", str "#m"]) :
+    User :=
   { hostname := str "h", name := nick, realname := nick, source := nick ++ str "!~u@h",
-    modes := {}, away := away, channels := [str "#c"],
+    modes := {}, away := away, channels := chans,
     history := { username := nick, hostname := str "h", realname := nick }, owner := owner }
 
 def mkConn (id : Nat) (nick : Str) : Conn :=
@@ -562,7 +762,7 @@ def chanM : Channel :=
                ban := [str "bob!*@*"] } }
 
 def w : World :=
-  { users := [(str "alice", mkUser (str "alice") 1 none), (str "bob", mkUser (str "bob") 2 none),
+  { users := [(str "alice", mkUser (str "alice") 1 none), (str "bob", mkUser (str "bob") 2 none [str "#c"]),
               (str "carol", mkUser (str "carol") 3 (some (str "gone fishing")))]
     channels := [(str "#c", chanC), (str "#m", chanM)]
     conns := [mkConn 1 (str "alice"), mkConn 2 (str "bob"), mkConn 3 (str "carol")]
@@ -570,6 +770,11 @@ def w : World :=
 
 def x : Ctx := { w := w }
 def cfg : Cfg := {}
+
+theorem chanInv : ChanInv w := chanInv_of_check w (by decide)
+theorem rankMirrorC : RankMirror chanC := rankMirror_of_check _ (by decide)
+/-- the executable version of the whole invariant accepts the demo world -/
+example : invCheck w = [] := by decide
 
 end Demo
 
